@@ -310,6 +310,9 @@ def run(ctx):
     # once more without red zones: a corrupted record that makes the sanitizer stop the child is, on the plain
     # build, visible as lost / duplicated / invented observations
     run_monitored(ctx, plain, scns, monitor, tag="query-plain")
+    os_gcc, os_clang = H.build_many(ctx.work, [dict(flavour="plain-os"), dict(flavour="plain-clang-os")])
+    run_monitored(ctx, os_gcc, scns[::2], monitor, tag="query-os")              # size-optimised builds of both compilers
+    run_monitored(ctx, os_clang, scns[1::2], monitor, tag="query-clang-os")
     c = rep.counters
     rep.need("queries_judged", c.get("queries_judged", 0), 2000)
     for name in ("fresh-observations-reported-after-the-bound-was-reached-and-drained", "more-bit", "bridged", "direct", "drain>=3-queries", "empty-query", "at-or-over-capacity", "mtu-changed-mid-history"):
